@@ -37,12 +37,10 @@ COVERED BY THEOREMS
 
   T4 (Props/C17Einstein.lean, part 2) Einstein's equations G + Λg = κT, all ten components, for EdS, LCDM,
      Conformally_flat, Schwarzschild_isotropic (vacuum, + its Kretschmann closed form), Harvey_Tsoubelis
-     (vacuum), Collins_Stewart, Rosquist_Jantzen, Non_diagonal (true with the coefficient 1/12, FALSE
-     with the module's 0.0833333: both proven), Szekeres (derivative property of the jet under the
-     hypothesis of T2-zz).
+     (vacuum), Collins_Stewart, Rosquist_Jantzen, Non_diagonal, Szekeres (derivative property of the jet under the
+     hypothesis of T2-zz); Schwarzschild null_ray_exp_out = divergence of the unit normal of the spheres.
 
 NOT COVERED BY A THEOREM — numerical sentinel only (tools/props/C17.py)
-  * null_ray_exp_out versus the metric.
   * The hypergeometric antiderivative used by Szekeres (hypothesis of T2-zz and of T4-Szekeres).
   * ICPertFLRW beyond the above (first-order constraint, LCDM growth index).
 -/
